@@ -11,7 +11,7 @@ import tempfile
 
 from hypothesis import strategies as st
 
-from ..core import Failure, drive
+from ..core import sstr, Failure, drive
 
 ID = "C19"
 LEVEL = "exploration"
@@ -52,7 +52,7 @@ BUILTIN_MODULE = {
     "mpilot.libraries.eems.csv": "mpilot.libraries.eems.csv.io",
     "mpilot.libraries.eems.netcdf": "mpilot.libraries.eems.netcdf.io",
 }
-GEN_LIBS = ["lib", "lib_extra", "libx", "lib.sub", "other", "li"]
+GEN_LIBS = ["lib", "lib_extra", "libx", "lib.sub", "lib_sub", "libxsub", "other", "li"]
 CMD_NAMES = ["Foo", "Bar", "Baz", "Qux"]
 ELSEWHERE = ["elsewhere", "lib_other", "libz", "l", "tests_helpers", "mpilot.libraries.eems.basic_extra"]
 
@@ -104,7 +104,7 @@ def observed(requested):
     try:
         prog = Program(libraries=tuple(requested))
     except MPilotError as exc:
-        return "error", str(exc)
+        return "error", sstr(exc)
     return "ok", {n: c.__module__ for n, c in prog.command_library.items()}
 
 
@@ -209,7 +209,7 @@ def check_history(case, rec):
     finally:
         sys.path.remove(root)
         for m in set(sys.modules) - mods_before:
-            if m.split(".")[0] in ("lib", "lib_extra", "libx", "other", "li"):
+            if m.split(".")[0] in ("lib", "lib_extra", "libx", "lib_sub", "libxsub", "other", "li"):
                 del sys.modules[m]
         CommandMeta._commands.clear()
         CommandMeta._commands.update(snap)
